@@ -15,3 +15,9 @@ check("C14",
       text="Explicit-state search to a fix-point (complete reachable state space) for BufferedBus with every capacity pair 1..4 x 1..4, SimpleBus, Queue and Broadcast: every interleaving of add (only while the bus reports room) / connect / next-cycle / get / pick / revert / delete-last / clean is executed on the real object and on a FIFO model with availability stamps; each edge compares returned items, the full private state and all observers, and asserts the statement directly on what is handed out (not before cycle c+1, at most once, within capacity, reverted item next).",
       note="Item identity is abstracted to a 1-bit tag in the canonical state (the implementation never inspects items; Pick predicates only look at the tag); absolute cycle numbers are abstracted to 'available now / next cycle'. Private state is read through accessors added by the build overlay.",
       ref="DESIGN.md §2 C14")
+
+check("C15",
+      technique="explicit-state BFS over write/read/commit/rollback histories on the real risc.Context and comp.RAT with a tagged write-log reference model",
+      text="Explicit-state search to a fix-point: every history of tagged writes (tags in arbitrary arrival order), tag-bounded reads through an instruction's Run, plain reads, Commit/Rollback(tag) (+RATFlush, ring wrap-around) on both the transaction-map and the rename-table path of risc.Context (2 registers x up to 2 uncommitted writes, 1 register x up to 3/4), and every history on comp.RAT with ring 2..4, against a per-register (tag, value) list model; each edge compares returned values and the architectural values of all registers. The statement's own limit (tag-bounded reads/rollback only while writes <= slots) is part of the oracle.",
+      note="Values are fresh integers and opaque to the implementation, so the canonical state keeps only the per-register sequence of uncommitted tags. 'Youngest' = highest tag. Known finding KF-C15-1 lists the exact failing histories (all in states with out-of-order arrivals).",
+      ref="DESIGN.md §2 C15")
